@@ -80,7 +80,7 @@ def run(res, b, tier, seed):
                           bytes.fromhex(c.out["AST"][1]).decode("utf-8", "replace") if ast == "ERR" else ""))
     # names resolve lexically in the SCRIPT too: directed programs whose behaviour shows which variable a name reached (a callee's local
     # against the caller's local / loop variable / parameter of the same spelling), executed (round 8: C07-B)
-    rt = [pipeline.Case("rt-" + name, {"main.tsh": j["src"].encode()}, meta=dict(expected_out=j["stdout"], expected_status=j["status"], src=j["src"], name="runtime:" + name))
+    rt = [pipeline.Case("rt-" + name, semprop.corpus_files(j), meta=dict(expected_out=j["stdout"], expected_status=j["status"], src=j["src"], name="runtime:" + name))
           for prop in ("C07", "C02") for name, j in semprop.load_corpus(prop)]
     rt_dis, rt_fails = semcheck.check_cases(b, rt, stages="as")
     for c, kind, detail in rt_fails:
